@@ -18,7 +18,8 @@ THEOREMS = ["Pff.Ecc.C03_whole_file_partial", "Pff.Ecc.C03_header_file_partial",
             "Pff.NonVacuity.toy_premises",
             "Pff.NonVacuity.toy_run",
             "Pff.Path.C03_run_relocated", "Pff.Path.PATH_abspath_good", "Pff.Path.PATH_gen_root_independent",
-            "Pff.Path.PATH_lookup_relocated", "Pff.Path.PATH_relFS_nodup", "Pff.Path.PATH_single_file"]
+            "Pff.Path.PATH_lookup_relocated", "Pff.Path.PATH_relFS_nodup", "Pff.Path.PATH_single_file",
+            "Pff.Path.PATH_abspath_idempotent", "Pff.Path.PATH_normpath_good", "Pff.Path.PATH_relpath_root_self"]
 MODELLED = [("pyFileFixity/header_ecc.py", "main"), ("pyFileFixity/header_ecc.py", "entry_assemble"), ("pyFileFixity/header_ecc.py", "compute_ecc_hash"),
             ("pyFileFixity/structural_adaptive_ecc.py", "main"), ("pyFileFixity/structural_adaptive_ecc.py", "stream_entry_assemble"),
             ("pyFileFixity/structural_adaptive_ecc.py", "stream_compute_ecc_hash")]
